@@ -179,6 +179,52 @@ def replay_file(mod, tier, path):
     return rec, res
 
 
+def run_fuzz(prop, plan, nproc):
+    """plan: [(stream name, runs per process)].  nproc libFuzzer processes per stream, seeds SEED*100+k."""
+    import shutil
+    import subprocess
+    import tempfile
+    tmp = tempfile.mkdtemp(prefix='vf-fuzz-')
+    info = dict(engine='atheris/libFuzzer via hypothesis fuzz_one_input', streams={}, executions=0, nontrivial=0, errors=[])
+    viol = {}
+    try:
+        for stream, runs in plan:
+            procs = []
+            for k in range(nproc):
+                sd = env.SEED * 100 + k + 1
+                cmd = [sys.executable, '-m', 'vf.fuzz', prop, stream, '--runs', str(runs), '--seed', str(sd), '--out', tmp]
+                e = dict(os.environ)
+                e['PYTHONPATH'] = os.path.join(VERIF_DIR, '.deps') + os.pathsep + VERIF_DIR + (os.pathsep + e['PYTHONPATH'] if e.get('PYTHONPATH') else '')
+                procs.append((sd, subprocess.Popen(cmd, cwd=VERIF_DIR, env=e, stdout=subprocess.DEVNULL, stderr=subprocess.DEVNULL)))
+            ex = 0
+            for sd, pr in procs:
+                pr.wait()
+                rp = os.path.join(tmp, 'result-%d.json' % sd)
+                if not os.path.exists(rp):
+                    info['errors'].append('no result from seed %d' % sd)
+                    continue
+                with open(rp) as f:
+                    r = json.load(f)
+                if r.get('error'):
+                    info['errors'].append(r['error'])
+                ex += r.get('executions', 0)
+                info['nontrivial'] += r.get('nontrivial', 0)
+                for sig, v in r.get('violations', {}).items():
+                    m = viol.get(sig)
+                    if m is None or v['size'] < m['size']:
+                        viol[sig] = dict(v, stream=stream, count=v['count'] + (m['count'] if m else 0))
+                    else:
+                        m['count'] += v['count']
+                os.remove(rp)
+            info['streams'][stream] = dict(processes=nproc, runs_per_process=runs, executions=ex)
+            info['executions'] += ex
+    finally:
+        shutil.rmtree(tmp, ignore_errors=True)
+    info['errors'] = sorted(set(info['errors']))[:5]
+    info['_violations'] = viol
+    return info
+
+
 def main(argv=None):
     argv = list(sys.argv[1:] if argv is None else argv)
     if not argv:
@@ -288,6 +334,17 @@ def main(argv=None):
                    seed=env.SEED, tier=tier, detail=detail, case=case), path)
         violations.append((sig, path))
 
+    # ---- coverage-guided sub-run (thorough tier only; never required)
+    fuzz_info = None
+    if tier == 'thorough' and getattr(mod, 'FUZZ', None) and not os.environ.get('VERIF_NO_FUZZ'):
+        fuzz_info = run_fuzz(prop, mod.FUZZ, nproc)
+        for sig, e in sorted(fuzz_info.pop('_violations').items()):
+            h = hashlib.sha1(('fuzz' + sig).encode()).hexdigest()[:10]
+            path = os.path.join(os.environ.get('VERIF_FOUND_DIR') or os.path.join(VERIF_DIR, 'found'), prop, 'fuzz-%s.json' % h)
+            jdump(dict(property=prop, signature=sig, stream=e['stream'], count=e['count'], seed=env.SEED, tier=tier,
+                       origin='atheris', detail=e['detail'], case=e['case']), path)
+            violations.append((sig, path))
+
     wall = time.time() - t0
     cov = dict(
         evaluations=total.evaluations,
@@ -307,6 +364,8 @@ def main(argv=None):
     )
     if total.steps:
         cov['steps'] = total.steps
+    if fuzz_info is not None:
+        cov['atheris'] = fuzz_info
     extra = getattr(mod, 'evidence_extra', None)
     if extra:
         cov.update(extra(tier))
